@@ -749,6 +749,11 @@ class TimeoutHandler(PoolThread):
                 dirty = set(k for k in dirty if k in cache)
 
             for i, job in cache.items():
+                if not isinstance(job, ApplyResult) or \
+                        isinstance(job, MapResult):
+                    # time limits apply to single-task results only; map
+                    # and imap handles keep per-part lists (or nothing).
+                    continue
                 ack_time = job._time_accepted
                 soft_timeout = job._soft_timeout
                 if soft_timeout is None:
